@@ -637,6 +637,10 @@ func (d *Data) mergeBlock(ctx *datastore.VersionedCtx, op mergeOp) {
 		dvid.Errorf("error in merge block %s: %v\n", op.bcoord, err)
 		return
 	}
+	if pb == nil {
+		dvid.Infof("merge on block %s attempted but block doesn't exist\n", op.bcoord)
+		return
+	}
 
 	block, err := pb.MergeLabels(op.MergeOp)
 	if err != nil {
